@@ -7,7 +7,8 @@
 //! after the release / after everything.  Server messages: correct answers, noise, mutated answers,
 //! extreme ids (0, 2^63, 2^64-1, 2^64, negative, fractional), huge arrays, deep nesting, texts that
 //! are no JSON-RPC, responses matching nothing pending, invalid UTF-8, reply arrays whose ids lie far
-//! apart.  Subscriptions are accepted and then dropped / unsubscribed / closed by a lag, so the faulted
+//! apart, long messages (256 … 65536 bytes ±3) of multi-byte characters at every alignment, both
+//! unparseable and valid.  Subscriptions are accepted and then dropped / unsubscribed / closed by a lag, so the faulted
 //! transport write can also be the unsubscribe request.
 //!
 //! Oracle (independent of the Lean model): no panic anywhere (panic hook + JoinHandles); no single
@@ -423,6 +424,11 @@ enum Item {
 	/// the unsubscribe request of a subscription that was let go is answered with an odd result / an
 	/// error object: nobody waits for it, nothing happens, the connection stays up
 	OddUnsubAnswer,
+	/// a long message (shape, exact byte length, filler kind, phase): not a JSON-RPC message (lethal) …
+	LongGarbage(u64, usize, u64, u64),
+	/// … or long but well-formed (a waiting call is answered with a long result / error, or a long
+	/// notification nobody listens to): the connection stays up
+	LongValid(u64, usize, u64, u64),
 	/// more notifications than the stream buffers: the subscription lags and the client closes it
 	/// (the send task writes the unsubscribe request)
 	Flood,
@@ -503,10 +509,108 @@ fn noise_text(rng: &mut Rng, subs: &[String]) -> String {
 	}
 }
 
+/// a string of exactly `len` bytes made of multi-byte characters: `kind` 0 = 2-byte, 1 = 3-byte,
+/// 2 = 4-byte, 3 = ASCII / 2 / 3 / 4-byte in turn; `phase` ASCII characters in front shift every
+/// later character boundary, so that over the phases every byte offset falls inside a character
+fn filler(len: usize, kind: u64, phase: u64) -> String {
+	let mut s = String::with_capacity(len + 4);
+	for _ in 0..(phase as usize).min(len) {
+		s.push('p');
+	}
+	let cycle: &[char] = match kind % 4 {
+		0 => &['é'],
+		1 => &['€'],
+		2 => &['😀'],
+		_ => &['a', 'é', '€', '😀'],
+	};
+	let mut i = 0;
+	loop {
+		let c = cycle[i % cycle.len()];
+		if s.len() + c.len_utf8() > len {
+			break;
+		}
+		s.push(c);
+		i += 1;
+	}
+	while s.len() < len {
+		s.push('z');
+	}
+	s
+}
+
+/// number of shapes of `long_unparseable`
+const LONG_U: u64 = 8;
+/// a text of exactly `total` bytes (compact JSON, members in sorted order: serde_json re-serialises it
+/// unchanged) that is NOT a JSON-RPC message: the client must abandon the connection
+fn long_unparseable(shape: u64, total: usize, kind: u64, phase: u64) -> String {
+	let wrap = |pre: &str, post: &str| -> String {
+		let room = total.saturating_sub(pre.len() + post.len());
+		format!("{pre}{}{post}", filler(room, kind, phase))
+	};
+	match shape % LONG_U {
+		// object that is neither response nor notification
+		0 => wrap("{\"x\":\"", "\"}"),
+		// array with such an entry, alone and after a harmless notification
+		1 => wrap("[{\"x\":\"", "\"}]"),
+		2 => wrap("[{\"jsonrpc\":\"2.0\",\"method\":\"n\"},{\"x\":\"", "\"}]"),
+		// a scalar: one long string
+		3 => wrap("\"", "\""),
+		// deeply nested
+		4 => wrap(&format!("{}\"", "[".repeat(60)), &format!("\"{}", "]".repeat(60))),
+		// the long text is a member *name*
+		5 => wrap("{\"", "\":1}"),
+		// a response-like object with both result and error (no JSON-RPC message), long error message
+		6 => wrap("{\"error\":{\"code\":1,\"message\":\"", "\"},\"id\":0,\"jsonrpc\":\"2.0\",\"result\":1}"),
+		// number-like: a very long integer literal (ASCII only)
+		_ => {
+			let mut d = String::from("1");
+			while d.len() < total {
+				d.push((b'0' + (d.len() % 10) as u8) as char);
+			}
+			d
+		}
+	}
+}
+
+/// number of shapes of `long_valid`
+const LONG_V: u64 = 5;
+/// a long but well-formed message that must NOT end the connection; `call_id` is the id of a waiting call
+fn long_valid(shape: u64, total: usize, kind: u64, phase: u64, call_id: Option<String>) -> String {
+	let wrap = |pre: &str, post: &str| -> String {
+		let room = total.saturating_sub(pre.len() + post.len());
+		format!("{pre}{}{post}", filler(room, kind, phase))
+	};
+	match (shape % LONG_V, call_id) {
+		// long string result / long error message / long error data for a waiting call
+		(0, Some(id)) => wrap(&format!("{{\"id\":{id},\"jsonrpc\":\"2.0\",\"result\":\""), "\"}"),
+		(1, Some(id)) => wrap("{\"error\":{\"code\":-32000,\"message\":\"", &format!("\"}},\"id\":{id},\"jsonrpc\":\"2.0\"}}")),
+		(2, Some(id)) => wrap("{\"error\":{\"code\":7,\"data\":[\"", &format!("\"],\"message\":\"m\"}},\"id\":{id},\"jsonrpc\":\"2.0\"}}")),
+		// notification with a long method name nobody listens to
+		(3, _) | (0, None) | (1, None) => wrap("{\"jsonrpc\":\"2.0\",\"method\":\"", "\",\"params\":[1]}"),
+		// subscription notification for a long, unknown subscription id
+		_ => wrap("{\"jsonrpc\":\"2.0\",\"method\":\"sub\",\"params\":{\"result\":1,\"subscription\":\"", "\"}}"),
+	}
+}
+
+/// sizes where truncation and buffer constants live
+const LONG_CENTERS: [usize; 7] = [256, 512, 1024, 2048, 4096, 8192, 65536];
+
 /// texts after which the client must abandon the connection; `never` is an id no operation will ever get
 fn garbage_text(rng: &mut Rng, out: &mut Out, str_ids: bool, never: u64) -> String {
-	let k = rng.below(34);
+	let k = rng.below(34 + LONG_U + 1);
 	out.count(&format!("garbage.kind{k:02}"));
+	if k >= 34 {
+		// long messages around the powers of two, multi-byte text at every alignment
+		let center = LONG_CENTERS[rng.below(6) as usize];
+		let total = (center as i64 + rng.range(0, 6) as i64 - 3) as usize;
+		let (kind, phase) = (rng.below(4), rng.below(4));
+		if k == 34 + LONG_U {
+			// a response whose id is a long string: matches nothing pending
+			let room = total.saturating_sub(40);
+			return format!("{{\"id\":\"{}\",\"jsonrpc\":\"2.0\",\"result\":1}}", filler(room, kind, phase));
+		}
+		return long_unparseable(k - 34, total, kind, phase);
+	}
 	match k {
 		0 => "hello".into(),
 		1 => "".into(),
@@ -692,6 +796,21 @@ fn render(rng: &mut Rng, out: &mut Out, caseno: u64, str_ids: bool, cap: u64, sc
 				out.count(&format!("server.subscribe_non_id_result.{k:02}"));
 				let odd = ["{\"x\":1}", "[1,2]", "true", "false", "null", "1.5", "-1", "1e300", "{\"a\":{\"b\":[{\"c\":null}]}}", "18446744073709551616", "[]", "-0"][k as usize];
 				lines.push(format!("ct deliver {}", hexs(&format!("{{\"jsonrpc\":\"2.0\",\"id\":{},\"result\":{odd}}}", idj(id, str_ids)))));
+			}
+			Item::LongGarbage(shape, total, kind, phase) => {
+				out.count(&format!("long.unparseable.shape{shape}"));
+				out.count(&format!("long.size.{:05}", LONG_CENTERS.iter().min_by_key(|c| (**c as i64 - *total as i64).abs()).unwrap()));
+				lines.push(format!("ct fault garbage {}", hexs(&long_unparseable(*shape, *total, *kind, *phase))));
+			}
+			Item::LongValid(shape, total, kind, phase) => {
+				out.count(&format!("long.valid.shape{shape}"));
+				out.count(&format!("long.size.{:05}", LONG_CENTERS.iter().min_by_key(|c| (**c as i64 - *total as i64).abs()).unwrap()));
+				let pos = if *shape % LONG_V <= 2 { open.iter().position(|o| matches!(o, Open::Call { .. })) } else { None };
+				let cid = pos.map(|i| match open.remove(i) {
+					Open::Call { id } => idj(id, str_ids),
+					_ => unreachable!(),
+				});
+				lines.push(format!("ct deliver {}", hexs(&long_valid(*shape, *total, *kind, *phase, cid))));
 			}
 			Item::OddUnsubAnswer => {
 				if unsubs.is_empty() {
@@ -918,7 +1037,9 @@ fn random_history(rng: &mut Rng, out: &mut Out) -> Vec<Item> {
 			8..=10 => Item::Answer(rng.chance(1, 2)),
 			11 => Item::Noise,
 			12 => Item::Mutated,
-			13 => match rng.below(5) {
+			13 => match rng.below(7) {
+				5 => Item::LongValid(rng.below(LONG_V), (LONG_CENTERS[rng.below(6) as usize] as i64 + rng.range(0, 6) as i64 - 3) as usize, rng.below(4), rng.below(4)),
+				6 => Item::LongGarbage(rng.below(LONG_U), (LONG_CENTERS[rng.below(6) as usize] as i64 + rng.range(0, 6) as i64 - 3) as usize, rng.below(4), rng.below(4)),
 				0 => Item::DropSub,
 				1 => Item::UnsubSub,
 				2 => Item::OddSubAnswer(None),
@@ -1096,6 +1217,39 @@ fn odd_reply_histories() -> Vec<Vec<Item>> {
 			}
 			s.push(Item::End);
 			all.push(s);
+		}
+	}
+	all
+}
+
+/// long messages with calls, a subscribe and a batch pending: every shape × every size centre × the
+/// seven lengths centre-3 … centre+3; filler kind and phase rotate so that each alignment occurs at
+/// each centre.  `big` = also the 64 KiB centre for every length (quick: three lengths only).
+fn long_message_histories(big: bool) -> Vec<Vec<Item>> {
+	let mut all = vec![];
+	for shape in 0..(LONG_U + LONG_V) {
+		for (ci, center) in LONG_CENTERS.iter().enumerate() {
+			for di in 0..7u64 {
+				if *center == 65536 && !big && !(2..=4).contains(&di) {
+					continue;
+				}
+				let total = (*center as i64 + di as i64 - 3) as usize;
+				let kind = (di + ci as u64) % 4;
+				let phase = (di + shape) % 4;
+				let mut s = vec![Item::Front(Front::Call), Item::Front(Front::Subscribe), Item::Front(Front::Batch(2))];
+				if di % 2 == 0 {
+					s.push(Item::Answer(false));
+				}
+				if shape < LONG_U {
+					s.push(Item::LongGarbage(shape, total, kind, phase));
+				} else {
+					s.push(Item::LongValid(shape - LONG_U, total, kind, phase));
+					s.push(Item::Answer(true));
+				}
+				s.push(Item::Front(Front::Call));
+				s.push(Item::End);
+				all.push(s);
+			}
 		}
 	}
 	all
@@ -1380,6 +1534,13 @@ fn main() {
 			caseno += 1;
 			out.count("unsubscribe_write_fault");
 			out.count("fault.send_err");
+			let str_ids = rng.chance(1, 4);
+			let cap = rng.range(1, 3);
+			lines.extend(render(&mut rng, &mut out, caseno, str_ids, cap, &script));
+		}
+		for script in long_message_histories(thorough) {
+			caseno += 1;
+			out.count("long_message_history");
 			let str_ids = rng.chance(1, 4);
 			let cap = rng.range(1, 3);
 			lines.extend(render(&mut rng, &mut out, caseno, str_ids, cap, &script));
